@@ -39,6 +39,7 @@ pub enum Op {
     SemClose,
     SemIsClosed,
     SemPermitDrop,
+    SemAvailablePermits,
 }
 
 /// Closure handed to [`Hooks::spawn_blocking`].
